@@ -92,8 +92,10 @@ def _gen_scope_init(rng):
             # a commented-out nbdime rule is not a rule
             text += rng.choice(["# *.ipynb\tdiff=jupyternotebook\n", "#*.ipynb merge=jupyternotebook\n",
                                 "# *.ipynb diff=jupyternotebook merge=jupyternotebook\n"])
+        if rng.random() < 0.12:
+            text = text.replace("\n", "\r\n")   # a file last saved on Windows
         if rng.random() < 0.3:
-            text = text.rstrip("\n")  # no trailing newline
+            text = text.rstrip("\r\n")  # no trailing newline
         init["attrs"] = text
     return init
 
@@ -511,9 +513,15 @@ class Runner:
         self.attrs_check(op, before, after, sig, "after the command")
         if len(self.violations) > nv:
             return
-        succeeded = outcome == "rc0" and not fired
         target = "global" if op["global"] else "local"
         in_repo = not op.get("outside_repo")
+        # An undisturbed command addressed to a scope that exists (the repository it is run in, or the global scope) is
+        # held to the full property whatever exit status it reports: "it said it failed" does not excuse a disable that
+        # leaves a driver routed, or an enable that is not effective.
+        undisturbed = not fired and (in_repo or target == "global")
+        succeeded = (outcome == "rc0" and not fired) or undisturbed
+        if outcome != "rc0" and undisturbed:
+            self.stat("undisturbed_command_nonzero_exit")
         if not succeeded:
             return
         if not op["enable"]:
